@@ -39,7 +39,7 @@ def main():
         subprocess.check_call(["git", "-C", REPO, "checkout", "--", "."])
         subprocess.run(["git", "-C", REPO, "clean", "-fdq"], check=False)
         # bring Gen/*.lean back to the unchanged tree
-        subprocess.run([sys.executable, "-c", "import sys; sys.path.insert(0, '%s/tools'); import common; common.regenerate(); import check; check.regen_certs_if_db_changed()" % VERIF])
+        subprocess.run([sys.executable, "-c", "import sys; sys.path.insert(0, '%s/tools'); import common; common.regenerate(); common.lake_build(['algobra_model']); common.build_harness(); import check; check.regen_certs_if_db_changed()" % VERIF])
     json.dump(results, open(os.path.join(d, "result.json"), "w"), indent=1)
     return 0
 
